@@ -60,7 +60,7 @@ def substSpec : Handler := fun args =>
   match ast with
   | some a =>
     match a.mapM segOfJson with
-    | some t => Json.mkObj [("wf", Json.bool (WF t)), ("rendered", str (renderL t)), ("eval", outJson (evalOut env t))]
+    | some t => Json.mkObj [("wf", Json.bool (WF t)), ("wf_ml", Json.bool (WFml t)), ("rendered", str (renderL t)), ("eval", outJson (evalOut env t))]
     | none => Json.mkObj [("bad", "ast")]
   | _ => Json.mkObj [("bad", "ast")]
 
